@@ -345,3 +345,108 @@ theorem MemBytes.toCell {m : Mem} {b : Nat} {c : UInt8} (h : MemBytes m b [c]) :
   exact ⟨blk, h1, h2, h3, by rw [h4]; rfl⟩
 
 end MiniC
+
+namespace MiniC
+
+/-! ### objects that are being filled: initialised bytes followed by uninitialised ones -/
+
+/-- block `b` is alive and writable; its first bytes are `pre`, the remaining `k` bytes are not initialised -/
+structure MemPart (m : Mem) (b : Nat) (pre : List UInt8) (k : Nat) : Prop where
+  blk : ∃ blk, m[b]? = some blk ∧ blk.live = true ∧ blk.writable = true ∧ blk.cells = pre.map some ++ List.replicate k none
+
+theorem MemPart.toBytes {m : Mem} {b : Nat} {pre : List UInt8} (h : MemPart m b pre 0) : MemBytes m b pre := by
+  obtain ⟨blk, h1, h2, h3, h4⟩ := h.blk
+  exact ⟨⟨blk, h1, h2, h3, by simpa using h4⟩⟩
+
+/-- `malloc(n)`: a fresh object behind all existing ones, nothing else changes -/
+theorem alloc_spec (m : Mem) (n : Nat) :
+    (m.alloc n).2 = m.length ∧ MemPart (m.alloc n).1 m.length [] n ∧ (m.alloc n).1.length = m.length + 1 ∧
+      ∀ b', b' < m.length → (m.alloc n).1[b']? = m[b']? := by
+  refine ⟨rfl, ⟨⟨{ cells := List.replicate n none }, by simp [Mem.alloc], rfl, rfl, by simp⟩⟩, by simp [Mem.alloc], ?_⟩
+  intro b' hb'
+  simp [Mem.alloc, List.getElem?_append_left hb']
+
+theorem byteOf_toNat (c : UInt8) : byteOf (c.toNat : Int) = c := by
+  have h := c.toNat_lt
+  simp only [byteOf, wrapTo, Ty.bits, Ty.signed, show (Ty.u8 == Ty.bool) = false from rfl, Bool.false_eq_true, if_false, Bool.false_and]
+  have h256 : ((2 : Int) ^ 8) = 256 := by decide
+  rw [h256]
+  have : ((c.toNat : Int)) % 256 = c.toNat := Int.emod_eq_of_lt (by omega) (by omega)
+  rw [this]
+  apply UInt8.toNat_inj.1
+  simp
+
+theorem MemPart.store8 {m : Mem} {b : Nat} {pre : List UInt8} {k : Nat} (h : MemPart m b pre (k + 1)) (v : Int) :
+    ∃ m', m.store8 b (pre.length : Int) v = .ok m' ∧ MemPart m' b (pre ++ [byteOf v]) k ∧ m'.length = m.length ∧
+      ∀ b', b' ≠ b → m'[b']? = m[b']? := by
+  obtain ⟨blk, h1, h2, h4, h3⟩ := h.blk
+  have hneg : ¬ ((pre.length : Int) < 0) := by omega
+  have hlen : pre.length < blk.cells.length := by rw [h3]; simp
+  have hb : b < m.length := by
+    rcases Nat.lt_or_ge b m.length with h | h
+    · exact h
+    · rw [List.getElem?_eq_none h] at h1; cases h1
+  refine ⟨m.set b { blk with cells := blk.cells.set pre.length (some (byteOf v)) }, ?_,
+    ⟨⟨{ blk with cells := blk.cells.set pre.length (some (byteOf v)) }, by simp [hb], h2, h4, ?_⟩⟩, by simp, ?_⟩
+  · simp only [Mem.store8, Mem.block, h1, h2, h4, bind, Except.bind, if_true, hneg, if_false, Int.toNat_natCast, hlen,
+      Bool.not_true, Bool.false_eq_true, byteOf]
+  · have : (pre.map some).length = pre.length := by simp
+    simp only [h3]
+    rw [List.set_append_right _ _ (by omega), this, Nat.sub_self, List.replicate_succ, List.set_cons_zero]
+    simp
+  · intro b' hb'
+    simp [Ne.symm hb']
+
+theorem MemPart.storeBytes {m : Mem} {b : Nat} : ∀ (l : List UInt8) {pre : List UInt8} {k : Nat} (h : MemPart m b pre (l.length + k)),
+    ∃ m', m.storeBytes b (pre.length : Int) l = .ok m' ∧ MemPart m' b (pre ++ l) k ∧ m'.length = m.length ∧
+      ∀ b', b' ≠ b → m'[b']? = m[b']?
+  | [], pre, k, h => ⟨m, rfl, by simpa using h, rfl, fun _ _ => rfl⟩
+  | c :: cs, pre, k, h => by
+    have h' : MemPart m b pre ((cs.length + k) + 1) := by
+      have : (c :: cs).length + k = (cs.length + k) + 1 := by simp; omega
+      rw [this] at h; exact h
+    obtain ⟨m1, hs1, hp1, hl1, ho1⟩ := h'.store8 (c.toNat : Int)
+    rw [byteOf_toNat] at hp1
+    obtain ⟨m2, hs2, hp2, hl2, ho2⟩ := MemPart.storeBytes (m := m1) cs (pre := pre ++ [c]) (k := k) hp1
+    refine ⟨m2, ?_, by simpa using hp2, hl2.trans hl1, fun b' hb' => by rw [ho2 b' hb', ho1 b' hb']⟩
+    have e : ((pre ++ [c]).length : Int) = (pre.length : Int) + 1 := by simp
+    rw [e] at hs2
+    simp [Mem.storeBytes, hs1, bind, Except.bind, hs2]
+
+end MiniC
+
+namespace MiniC
+
+theorem MemPart.store8_at {m : Mem} {b : Nat} {pre : List UInt8} {k : Nat} (h : MemPart m b pre k) (i : Nat) (hi : i < pre.length) (v : Int) :
+    ∃ m', m.store8 b (i : Int) v = .ok m' ∧ MemPart m' b (pre.set i (byteOf v)) k ∧ m'.length = m.length ∧
+      ∀ b', b' ≠ b → m'[b']? = m[b']? := by
+  obtain ⟨blk, h1, h2, h4, h3⟩ := h.blk
+  have hneg : ¬ ((i : Int) < 0) := by omega
+  have hlen : i < blk.cells.length := by rw [h3]; simp; omega
+  have hb : b < m.length := by
+    rcases Nat.lt_or_ge b m.length with h | h
+    · exact h
+    · rw [List.getElem?_eq_none h] at h1; cases h1
+  refine ⟨m.set b { blk with cells := blk.cells.set i (some (byteOf v)) }, ?_,
+    ⟨⟨{ blk with cells := blk.cells.set i (some (byteOf v)) }, by simp [hb], h2, h4, ?_⟩⟩, by simp, ?_⟩
+  · simp only [Mem.store8, Mem.block, h1, h2, h4, bind, Except.bind, if_true, hneg, if_false, Int.toNat_natCast, hlen,
+      Bool.not_true, Bool.false_eq_true, byteOf]
+  · simp only [h3]
+    rw [List.set_append_left _ _ (by simpa using hi)]
+    simp [List.map_set]
+  · intro b' hb'
+    simp [Ne.symm hb']
+
+/-- a block that is being filled is not touched by writes to other blocks -/
+theorem MemPart.frame {m m' : Mem} {b b0 : Nat} {pre : List UInt8} {k : Nat} (h : MemPart m b pre k)
+    (hoth : ∀ b', b' ≠ b0 → m'[b']? = m[b']?) (hne : b ≠ b0) : MemPart m' b pre k := by
+  obtain ⟨blk, h1, h2, h3, h4⟩ := h.blk
+  exact ⟨⟨blk, by rw [hoth b hne]; exact h1, h2, h3, h4⟩⟩
+
+theorem MemBytes.lt_length {m : Mem} {b : Nat} {cells : List UInt8} (h : MemBytes m b cells) : b < m.length := by
+  obtain ⟨blk, h1, _⟩ := h.blk
+  rcases Nat.lt_or_ge b m.length with h | h
+  · exact h
+  · rw [List.getElem?_eq_none h] at h1; cases h1
+
+end MiniC
